@@ -1,3 +1,674 @@
 package main
 
-func runFlow(casesPath, tracePath, dir string, scale int, useStream bool, tmp string) {}
+import (
+	"bytes"
+	"encoding/json"
+	"fmt"
+	"hash/fnv"
+	"io"
+	"net"
+	"sort"
+	"strconv"
+	"strings"
+	"time"
+
+	xhttp2 "golang.org/x/net/http2"
+	xhpack "golang.org/x/net/http2/hpack"
+	v2 "mosn.io/mosn/pkg/config/v2"
+	"verif/e2e"
+	"verif/vh"
+)
+
+// ---------------------------------------------------------------- cases
+
+type flOp struct {
+	K string `json:"k"` // wu | wuc | set
+	S int    `json:"s"`
+	N int    `json:"n"`
+}
+
+type flCase struct {
+	Body []int  `json:"body"`
+	Iws  int    `json:"iws"`
+	C0   int    `json:"c0"`
+	Mfs  int    `json:"mfs"`
+	Ops  []flOp `json:"ops"`
+}
+
+const (
+	stepDeadline  = 25 * time.Second // event-based waits; only a sender that really does not move runs into it
+	clientPreface = "PRI * HTTP/2.0\r\n\r\nSM\r\n\r\n"
+)
+
+// ---------------------------------------------------------------- the raw-frame peer
+
+type finfo struct {
+	typ      xhttp2.FrameType
+	flags    xhttp2.Flags
+	sid      uint32
+	length   uint32
+	block    []byte
+	bad      bool
+	settings []xhttp2.Setting
+	ping     [8]byte
+	code     uint32
+	err      error
+}
+
+type pstream struct {
+	id      uint32
+	tok     string
+	body    int
+	sent    int
+	grant   int
+	ended   bool
+	lost    bool // reset by MOSN
+	prime   bool
+	hdrSeen bool
+	out     chan e2e.Outcome // cli: what the HTTP/1 downstream client saw
+}
+
+type peer struct {
+	dir    string
+	c      net.Conn
+	fr     *xhttp2.Framer
+	frames chan finfo
+	tr     *vh.Trace
+
+	hbuf bytes.Buffer
+	henc *xhpack.Encoder
+	hdec *xhpack.Decoder
+	// the table size this side announced and the decoder's books (a strict RFC 7541 4.2 receiver)
+	decMax  int
+	needUpd int
+
+	iws, mfs      int
+	cgrant, csent int
+	streams       map[uint32]*pstream
+	planned       map[string]*pstream // cli: requests on their way through MOSN, by token
+	acks, pongs   int
+	dead          bool
+	nextID        uint32
+
+	blockSid uint32
+	block    []byte
+	blockES  bool
+}
+
+func newPeer(dir string, c net.Conn, tr *vh.Trace) *peer {
+	p := &peer{dir: dir, c: c, tr: tr, frames: make(chan finfo, 4096), streams: map[uint32]*pstream{}, planned: map[string]*pstream{},
+		iws: 65535, mfs: 16384, cgrant: 65535, decMax: 4096, needUpd: -1, nextID: 1}
+	p.fr = xhttp2.NewFramer(c, c)
+	p.henc = xhpack.NewEncoder(&p.hbuf)
+	p.hdec = xhpack.NewDecoder(4096, nil)
+	go p.reader()
+	tr.Emit(vh.Ev{"ev": "conn", "dir": dir, "cw": 65535})
+	return p
+}
+
+func (p *peer) reader() {
+	for {
+		f, err := p.fr.ReadFrame()
+		if err != nil {
+			p.frames <- finfo{err: err}
+			return
+		}
+		h := f.Header()
+		fi := finfo{typ: h.Type, flags: h.Flags, sid: h.StreamID, length: h.Length}
+		switch f := f.(type) {
+		case *xhttp2.DataFrame:
+			for _, b := range f.Data() {
+				if b != 'x' {
+					fi.bad = true
+					break
+				}
+			}
+		case *xhttp2.HeadersFrame:
+			fi.block = append([]byte(nil), f.HeaderBlockFragment()...)
+		case *xhttp2.ContinuationFrame:
+			fi.block = append([]byte(nil), f.HeaderBlockFragment()...)
+		case *xhttp2.SettingsFrame:
+			f.ForeachSetting(func(s xhttp2.Setting) error { fi.settings = append(fi.settings, s); return nil })
+		case *xhttp2.PingFrame:
+			fi.ping = f.Data
+		case *xhttp2.RSTStreamFrame:
+			fi.code = uint32(f.ErrCode)
+		case *xhttp2.GoAwayFrame:
+			fi.code = uint32(f.ErrCode)
+		}
+		p.frames <- fi
+	}
+}
+
+func (p *peer) fail(what string, kv vh.Ev) {
+	ev := vh.Ev{"ev": "err", "what": what, "dir": p.dir}
+	for k, v := range kv {
+		ev[k] = v
+	}
+	p.tr.Emit(ev)
+}
+
+func (p *peer) kill(what string) {
+	if !p.dead {
+		p.fail(what, nil)
+		p.dead = true
+		p.c.Close()
+	}
+}
+
+// pump handles arriving frames until the condition holds; false = deadline or dead connection.
+func (p *peer) pump(until func() bool, d time.Duration) bool {
+	t := time.NewTimer(d)
+	defer t.Stop()
+	for !until() {
+		if p.dead {
+			return false
+		}
+		select {
+		case fi := <-p.frames:
+			p.handle(fi)
+		case <-t.C:
+			return false
+		}
+	}
+	return true
+}
+
+func (p *peer) handle(fi finfo) {
+	if fi.err != nil {
+		if !p.dead {
+			p.fail("connection-lost", vh.Ev{"detail": fi.err.Error()})
+			p.dead = true
+		}
+		return
+	}
+	switch fi.typ {
+	case xhttp2.FrameSettings:
+		if fi.flags.Has(xhttp2.FlagSettingsAck) {
+			p.acks++
+		} else {
+			p.fr.WriteSettingsAck()
+		}
+	case xhttp2.FramePing:
+		if fi.flags.Has(xhttp2.FlagPingAck) {
+			p.pongs++
+		} else {
+			p.fr.WritePing(true, fi.ping)
+		}
+	case xhttp2.FrameHeaders:
+		p.blockSid, p.block, p.blockES = fi.sid, fi.block, fi.flags.Has(xhttp2.FlagHeadersEndStream)
+		if fi.flags.Has(xhttp2.FlagHeadersEndHeaders) {
+			p.headersDone()
+		}
+	case xhttp2.FrameContinuation:
+		p.block = append(p.block, fi.block...)
+		if fi.flags.Has(xhttp2.FlagContinuationEndHeaders) {
+			p.headersDone()
+		}
+	case xhttp2.FrameData:
+		n := int(fi.length)
+		end := fi.flags.Has(xhttp2.FlagDataEndStream)
+		p.tr.Emit(vh.Ev{"ev": "data", "s": fi.sid, "n": n, "end": end, "bad": fi.bad})
+		p.csent += n
+		if st := p.streams[fi.sid]; st != nil {
+			st.sent += n
+			st.ended = st.ended || end
+		}
+	case xhttp2.FrameRSTStream:
+		p.fail("rst_stream", vh.Ev{"s": fi.sid, "code": fi.code})
+		if st := p.streams[fi.sid]; st != nil {
+			st.lost, st.ended = true, true
+		}
+	case xhttp2.FrameGoAway:
+		p.kill(fmt.Sprintf("goaway-%d", fi.code))
+	}
+}
+
+func (p *peer) headersDone() {
+	sid, block, es := p.blockSid, p.block, p.blockES
+	ok, why := true, ""
+	reps, perr := parseBlock(block)
+	if perr != nil {
+		ok, why = false, "unreadable"
+	}
+	lead := -1
+	for _, r := range reps {
+		if r.K != "upd" {
+			break
+		}
+		if lead < 0 || int(r.I) < lead {
+			lead = int(r.I)
+		}
+		p.decMax = int(r.I)
+	}
+	if p.needUpd >= 0 {
+		if ok && (lead < 0 || lead > p.needUpd) {
+			ok, why = false, "table-size-update-missing"
+		}
+		p.needUpd = -1
+	}
+	fields := map[string]string{}
+	p.hdec.SetEmitFunc(func(f xhpack.HeaderField) { fields[f.Name] = f.Value })
+	_, err := p.hdec.Write(block)
+	if err == nil {
+		err = p.hdec.Close()
+	}
+	if err != nil {
+		if ok {
+			ok, why = false, "undecodable"
+		}
+		defer p.kill("hpack-context-lost") // the compression context cannot be trusted any more
+	}
+	st := p.streams[sid]
+	if p.dir == "cli" && st == nil {
+		// a new request coming out of MOSN's HTTP/2 client
+		st = p.planned[fields["x-token"]]
+		if st == nil {
+			if ok {
+				ok, why = false, "unexpected-fields"
+			}
+			p.tr.Emit(vh.Ev{"ev": "hdr", "s": sid, "ok": ok, "why": why})
+			return
+		}
+		delete(p.planned, st.tok)
+		st.id, st.grant = sid, p.iws
+		p.streams[sid] = st
+		if ok && (fields[":path"] == "" || (st.body > 0 && fields["content-length"] != strconv.Itoa(st.body))) {
+			ok, why = false, "unexpected-fields"
+		}
+		p.tr.Emit(vh.Ev{"ev": "hdr", "s": sid, "ok": ok, "why": why})
+		p.tr.Emit(vh.Ev{"ev": "open", "s": sid, "body": st.body, "prime": st.prime})
+	} else {
+		if p.dir == "srv" && st != nil && !st.hdrSeen {
+			st.hdrSeen = true
+			if ok && (fields[":status"] != "200" || fields["x-token"] != st.tok) {
+				ok, why = false, "unexpected-fields"
+			}
+		}
+		p.tr.Emit(vh.Ev{"ev": "hdr", "s": sid, "ok": ok, "why": why})
+	}
+	if es {
+		p.tr.Emit(vh.Ev{"ev": "end", "s": sid})
+		if st != nil {
+			st.ended = true
+		}
+	}
+}
+
+// settings announces new values and waits for the acknowledgement (called only while the sender is quiet).
+func (p *peer) settings(iws, mfs, hts int) {
+	if p.dead {
+		return
+	}
+	ss := []xhttp2.Setting{{ID: xhttp2.SettingInitialWindowSize, Val: uint32(iws)}, {ID: xhttp2.SettingMaxFrameSize, Val: uint32(mfs)}}
+	if hts >= 0 {
+		ss = append(ss, xhttp2.Setting{ID: xhttp2.SettingHeaderTableSize, Val: uint32(hts)})
+	}
+	want := p.acks + 1
+	if err := p.fr.WriteSettings(ss...); err != nil {
+		p.kill("write-failed")
+		return
+	}
+	if !p.pump(func() bool { return p.acks >= want }, stepDeadline) {
+		p.kill("settings-not-acknowledged")
+		return
+	}
+	for _, st := range p.streams {
+		if !st.ended {
+			st.grant += iws - p.iws
+		}
+	}
+	p.iws, p.mfs = iws, mfs
+	if hts >= 0 {
+		p.hdec.SetAllowedMaxDynamicTableSize(uint32(hts))
+		if hts < p.decMax { // a strict receiver shrinks at once and insists on the size update (RFC 7541 4.2)
+			p.hdec.SetMaxDynamicTableSize(uint32(hts))
+			p.decMax, p.needUpd = hts, hts
+		}
+	}
+	p.tr.Emit(vh.Ev{"ev": "set", "iws": iws, "mfs": mfs, "hts": hts})
+}
+
+func (p *peer) wu(sid uint32, n int) {
+	if p.dead || n <= 0 {
+		return
+	}
+	p.tr.Emit(vh.Ev{"ev": "wu", "s": sid, "n": n})
+	if sid == 0 {
+		p.cgrant += n
+	} else if st := p.streams[sid]; st != nil {
+		st.grant += n
+	}
+	if err := p.fr.WriteWindowUpdate(sid, uint32(n)); err != nil {
+		p.kill("write-failed")
+	}
+}
+
+func (p *peer) quiet() bool {
+	for _, st := range p.streams {
+		if !st.lost && st.body-st.sent > 0 && st.grant-st.sent > 0 && p.cgrant-p.csent > 0 {
+			return false
+		}
+	}
+	return true
+}
+
+// sync waits until the sender has nothing left it may send, then exchanges a PING so that anything it sent
+// beyond that has been seen too.
+func (p *peer) sync() {
+	if p.dead {
+		return
+	}
+	ok := p.pump(p.quiet, stepDeadline)
+	want := p.pongs + 1
+	if err := p.fr.WritePing(false, [8]byte{'v', 'e', 'r', 'i', 'f', 0, 0, byte(want)}); err == nil {
+		if !p.pump(func() bool { return p.pongs >= want }, stepDeadline) && !p.dead {
+			p.fail("ping-unanswered", nil)
+		}
+	}
+	if !p.dead {
+		p.tr.Emit(vh.Ev{"ev": "sync", "to": !ok})
+	}
+}
+
+func (p *peer) live() []*pstream {
+	out := []*pstream{}
+	for _, st := range p.streams {
+		if !st.ended {
+			out = append(out, st)
+		}
+	}
+	sort.Slice(out, func(i, j int) bool { return out[i].id < out[j].id })
+	return out
+}
+
+// flush grants exactly what is still missing.
+func (p *peer) flush() {
+	tot := 0
+	for _, st := range p.live() {
+		if need := st.body - st.grant; need > 0 {
+			p.wu(st.id, need)
+		}
+		tot += st.body - st.sent
+	}
+	if cn := tot - (p.cgrant - p.csent); cn > 0 {
+		p.wu(0, cn)
+	}
+}
+
+func (p *peer) writeHeaders(sid uint32, endStream bool, kv ...string) {
+	p.hbuf.Reset()
+	for i := 0; i+1 < len(kv); i += 2 {
+		p.henc.WriteField(xhpack.HeaderField{Name: kv[i], Value: kv[i+1]})
+	}
+	block := append([]byte(nil), p.hbuf.Bytes()...)
+	// split over HEADERS + CONTINUATION now and then
+	if len(block) > 12 && sid%8 == 5 {
+		h := len(block) / 3
+		p.fr.WriteHeaders(xhttp2.HeadersFrameParam{StreamID: sid, BlockFragment: block[:h], EndStream: endStream})
+		p.fr.WriteContinuation(sid, false, block[h:2*h])
+		p.fr.WriteContinuation(sid, true, block[2*h:])
+		return
+	}
+	if err := p.fr.WriteHeaders(xhttp2.HeadersFrameParam{StreamID: sid, BlockFragment: block, EndStream: endStream, EndHeaders: true}); err != nil {
+		p.kill("write-failed")
+	}
+}
+
+// ---------------------------------------------------------------- the environment: MOSN, upstream, downstream
+
+type env struct {
+	dir     string
+	tr      *vh.Trace
+	srvAddr string       // MOSN's HTTP/2 listener (dir srv)
+	cliAddr string       // MOSN's HTTP/1 listener whose upstream is the peer (dir cli)
+	ln      net.Listener // the peer as HTTP/2 upstream server (dir cli)
+	p       *peer
+	ntok    int
+}
+
+func (e *env) token() string { e.ntok++; return fmt.Sprintf("t%d", e.ntok) }
+
+// request starts one request that makes MOSN send `body` bytes towards the peer.
+func (e *env) request(body int, prime bool) *pstream {
+	p := e.p
+	st := &pstream{tok: e.token(), body: body, prime: prime}
+	if e.dir == "srv" {
+		st.id, st.grant = p.nextID, p.iws
+		p.nextID += 2
+		p.streams[st.id] = st
+		p.tr.Emit(vh.Ev{"ev": "open", "s": st.id, "body": body, "prime": prime})
+		p.writeHeaders(st.id, true, ":method", "GET", ":scheme", "http", ":path", "/big", ":authority", "verif.local",
+			"x-script", fmt.Sprintf("big%d", body), "x-token", st.tok)
+		return st
+	}
+	st.out = make(chan e2e.Outcome, 1)
+	p.planned[st.tok] = st
+	go func() {
+		c, err := e2e.DialHTTP(e.cliAddr)
+		if err != nil {
+			st.out <- e2e.Outcome{Kind: "error", Err: err.Error()}
+			return
+		}
+		defer c.Close()
+		c.Send("POST", "/up", map[string]string{"X-Token": st.tok}, strings.Repeat("x", body))
+		st.out <- c.Recv(120*time.Second, 0)
+	}()
+	return st
+}
+
+// opened waits until the requests have become streams the peer knows.
+func (e *env) opened(sts []*pstream) {
+	if e.dir == "srv" {
+		return
+	}
+	if !e.p.pump(func() bool {
+		for _, st := range sts {
+			if st.id == 0 {
+				return false
+			}
+		}
+		return true
+	}, stepDeadline) {
+		e.p.kill("request-not-forwarded")
+	}
+}
+
+// finish completes the exchanges of a case.
+func (e *env) finish(sts []*pstream) {
+	if e.dir == "srv" {
+		return
+	}
+	for _, st := range sts {
+		if st.id != 0 && !e.p.dead && !st.lost {
+			e.p.writeHeaders(st.id, true, ":status", "200", "x-token", st.tok)
+		}
+	}
+	for _, st := range sts {
+		if st.id == 0 || e.p.dead {
+			continue // the goroutine ends with its own deadline
+		}
+		select {
+		case o := <-st.out:
+			if o.Kind != "response" || o.Status != 200 {
+				e.p.fail("downstream-"+o.Kind+"-"+strconv.Itoa(o.Status), vh.Ev{"s": st.id})
+			}
+		case <-time.After(stepDeadline):
+			e.p.fail("downstream-no-response", vh.Ev{"s": st.id})
+		}
+	}
+}
+
+func (e *env) connect() bool {
+	if e.p != nil && !e.p.dead {
+		return true
+	}
+	if e.p != nil {
+		e.p.c.Close()
+	}
+	if e.dir == "srv" {
+		c, err := net.DialTimeout("tcp", e.srvAddr, 5*time.Second)
+		vh.Must(err, "dial mosn")
+		c.Write([]byte(clientPreface))
+		e.p = newPeer("srv", c, e.tr)
+		e.p.settings(65535, 16384, -1)
+		return !e.p.dead
+	}
+	// MOSN dials when the first request needs the upstream
+	warm := &pstream{tok: e.token(), out: make(chan e2e.Outcome, 1)}
+	go func() {
+		c, err := e2e.DialHTTP(e.cliAddr)
+		if err != nil {
+			warm.out <- e2e.Outcome{Kind: "error", Err: err.Error()}
+			return
+		}
+		defer c.Close()
+		c.Send("GET", "/up", map[string]string{"X-Token": warm.tok}, "")
+		warm.out <- c.Recv(120*time.Second, 0)
+	}()
+	e.ln.(*net.TCPListener).SetDeadline(time.Now().Add(stepDeadline))
+	c, err := e.ln.Accept()
+	vh.Must(err, "mosn did not connect to the upstream peer")
+	buf := make([]byte, len(clientPreface))
+	c.SetReadDeadline(time.Now().Add(stepDeadline))
+	_, err = io.ReadFull(c, buf)
+	vh.Must(err, "client preface")
+	c.SetReadDeadline(time.Time{})
+	if string(buf) != clientPreface {
+		vh.Must(fmt.Errorf("%q", buf), "client preface")
+	}
+	e.p = newPeer("cli", c, e.tr)
+	e.p.planned[warm.tok] = warm
+	e.p.settings(65535, 16384, -1)
+	e.opened([]*pstream{warm})
+	e.finish([]*pstream{warm})
+	return !e.p.dead
+}
+
+// prime brings the sender's connection window to target (it can only be consumed, never taken back).
+func (e *env) prime(target int) {
+	p := e.p
+	cur := p.cgrant - p.csent
+	if cur < target {
+		p.wu(0, target-cur)
+		return
+	}
+	if cur == target || p.dead {
+		return
+	}
+	d := cur - target
+	if p.iws < d {
+		p.settings(1<<20, p.mfs, -1)
+	}
+	st := e.request(d, true)
+	e.opened([]*pstream{st})
+	if !p.pump(func() bool { return st.ended }, stepDeadline) && !p.dead {
+		p.tr.Emit(vh.Ev{"ev": "sync", "to": true})
+	}
+	e.finish([]*pstream{st})
+}
+
+func (e *env) runCase(c flCase, scale int, h uint64) {
+	if !e.connect() {
+		return
+	}
+	p := e.p
+	// retire the streams of earlier cases from the peer's books (the trace keeps them: they are ended)
+	for id, st := range p.streams {
+		if st.ended {
+			delete(p.streams, id)
+		}
+	}
+	mfs := 16384
+	if c.Mfs*scale > mfs {
+		mfs = c.Mfs * scale
+	}
+	hts := []int{-1, -1, 4096, 0, 60, 200}[h%6]
+	syncEvery := (h>>8)%2 == 0
+	if (h>>16)%4 == 0 { // the peer's own encoder changes its table size now and then (MOSN's decoder must follow)
+		p.henc.SetMaxDynamicTableSize(uint32([]int{0, 100, 4096}[(h>>20)%3]))
+	}
+	e.prime(c.C0 * scale)
+	p.settings(c.Iws*scale, mfs, hts)
+	sts := []*pstream{}
+	for _, b := range c.Body {
+		sts = append(sts, e.request(b*scale, false))
+	}
+	e.opened(sts)
+	p.sync()
+	for _, op := range c.Ops {
+		if p.dead {
+			break
+		}
+		switch op.K {
+		case "wu":
+			p.wu(sts[op.S-1].id, op.N*scale)
+		case "wuc":
+			p.wu(0, op.N*scale)
+		case "set":
+			p.sync()
+			p.settings(op.N*scale, mfs, -1)
+		}
+		if syncEvery {
+			p.sync()
+		}
+	}
+	p.sync()
+	p.flush()
+	p.sync()
+	p.pump(func() bool {
+		for _, st := range sts {
+			if !st.ended {
+				return false
+			}
+		}
+		return true
+	}, stepDeadline)
+	if !p.dead {
+		p.tr.Emit(vh.Ev{"ev": "quiesce"})
+	}
+	e.finish(sts)
+}
+
+func runFlow(casesPath, tracePath, dir string, scale int, useStream bool, tmp string) {
+	tr := vh.NewTrace(tracePath)
+	defer tr.Close()
+	reg := e2e.NewRegistry()
+	up := e2e.NewHTTPUpstream("u1", reg)
+	defer up.Close()
+	ln, err := net.Listen("tcp", "127.0.0.1:0")
+	vh.Must(err, "peer listener")
+	defer ln.Close()
+	e := &env{dir: dir, tr: tr, srvAddr: e2e.FreeAddr(), cliAddr: e2e.FreeAddr(), ln: ln}
+	ext := func(l *v2.Listener) {
+		if useStream {
+			l.FilterChains[0].Filters[0].Config["extend_config"] = map[string]interface{}{"http2_use_stream": true}
+		}
+	}
+	lsrv := e2e.BuildListener(e2e.ListenerSpec{Name: "c18srv", Addr: e.srvAddr, Downstream: "Http2", Upstream: "Http1",
+		Routes: []e2e.RouteSpec{{Prefix: "/", Cluster: "u1"}}, Extra: ext})
+	lcli := e2e.BuildListener(e2e.ListenerSpec{Name: "c18cli", Addr: e.cliAddr, Downstream: "Http1", Upstream: "Http2",
+		Routes: []e2e.RouteSpec{{Prefix: "/", Cluster: "u2"}}, Extra: ext})
+	clusters := e2e.BuildClusters([]e2e.ClusterSpec{{Name: "u1", Hosts: []string{up.Addr}}, {Name: "u2", Hosts: []string{ln.Addr().String()}}})
+	m := e2e.StartMosn(e2e.BuildConfig([]v2.Listener{lsrv, lcli}, clusters, e2e.ScratchLog(tmp)))
+	defer m.Close()
+	vh.Must(e2e.WaitListen(e.srvAddr, 10*time.Second), "mosn http2 listener")
+	vh.Must(e2e.WaitListen(e.cliAddr, 10*time.Second), "mosn http1 listener")
+
+	seed := uint64(vh.Seed())
+	n := 0
+	err = vh.ReadCases(casesPath, func(raw json.RawMessage) error {
+		var c flCase
+		if err := json.Unmarshal(raw, &c); err != nil {
+			return err
+		}
+		hh := fnv.New64a()
+		hh.Write(raw)
+		h := hh.Sum64() ^ seed*0x9e3779b97f4a7c15
+		e.runCase(c, scale, h)
+		n++
+		return nil
+	})
+	vh.Must(err, "flow cases")
+	fmt.Printf("flow dir=%s scale=%d cases=%d events=%d\n", dir, scale, n, tr.Len())
+}
